@@ -51,7 +51,8 @@ TCall == /\ Ev("Call") /\ PC!Call(E.api, E.sc)
 TReturn == /\ Ev("Return") /\ call.phase = "in"
            /\ call' = [call EXCEPT !.phase = "idle", !.kind = E.kind, !.fatals = E.fatals, !.returns = @ + 1]
            /\ Note({<<cx.id, "ReturnAllowed", 0>> : x \in IF PC!ReturnAllowed(E.kind, E.fatals) THEN {} ELSE {1}}
-                   \cup {<<cx.id, "AllReleased", r>> : r \in DOMAIN rd}                       \* every reader was deleted
+                   \cup {<<cx.id, "AllReleased", r>> : r \in {x \in DOMAIN rd : rd[x].pc \notin {"new", "init"}}}   \* every reader was deleted
+                                                                       \* (a reader whose constructor threw never came into being)
                    \cup {<<cx.id, "ResetEmpty", m>> : m \in {x \in DOMAIN mg : Depth(mg[x]) # 0}})
            /\ UNCHANGED <<cx, rd, mg>>
 
@@ -113,7 +114,7 @@ MgStep(m, r, isEntPush) ==
     /\ mg' = (m :> r) @@ mg
     /\ cx' = IF isEntPush THEN [cx EXCEPT !.entPushes = @ + 1] ELSE cx
     /\ Note({<<cx.id, "StackInv", m>> : x \in IF StackInvR(r) THEN {} ELSE {1}}
-            \cup {<<cx.id, "CountBounded", m>> : x \in IF (isEntPush /\ cx.limit > 0 /\ cx.entPushes + 1 > cx.limit) THEN {1} ELSE {}})
+            \cup {<<cx.id, "CountBounded", m>> : x \in IF (isEntPush /\ cx.limit > 0 /\ cx.entPushes + 1 > cx.limit + 1) THEN {1} ELSE {}})   \* as coded: pushed, then counted
 TPush == /\ Ev("Push") /\ call.phase = "in"
          /\ LET m0 == Mgr(E.m) IN
             IF E.ok = 1
